@@ -90,6 +90,9 @@ type queueTrigger struct {
 
 // Add adds to q.getters[shard]
 func (q *ShardQueue) Add(gts ...WriterGetter) {
+	if len(gts) == 0 {
+		return
+	}
 	if atomic.LoadInt32(&q.state) != active {
 		return
 	}
